@@ -1,11 +1,12 @@
 #!/bin/sh
 # usage: tools/reseed_all.sh [glob]  — regression: re-runs every stored seeded change (seeded/<id>/patch.diff) against
-# the current quick check of its property and prints CAUGHT/MISSED per change (C07c and C07i are expected to be MISSED: they
-# do not break C07 as stated, see DESIGN.md)
+# the current quick check of its property (or of the sibling property named by "caught_by_property" in meta.json, for changes
+# that live in another property's code) and prints CAUGHT/MISSED per change. Expected MISSED: C07c, C07i, C07r, C10r, C15w (do
+# not break the property as stated / outside its histories) and C07m (pre-1.23 timer semantics, simulator limit), see DESIGN.md
 V=${VERIF_DIR:-/verif}; cd $V
 for d in seeded/${1:-*}; do
   [ -f $d/patch.diff ] || continue
-  id=$(basename $d); p=$(python3 -c "import json;print(json.load(open(\"$d/meta.json\"))[\"breaks_property\"])" 2>/dev/null || echo $id | cut -c1-3)
+  id=$(basename $d); p=$(python3 -c "import json;m=json.load(open(\"$d/meta.json\"));print(m.get(\"caught_by_property\") or m[\"breaks_property\"])" 2>/dev/null || echo $id | cut -c1-3)
   out=$(tools/trymutant.sh "$p" "$d/patch.diff" 2>&1)
   n=$(echo "$out" | grep -c "^  violation class")
   if [ "$n" -gt 0 ]; then echo "CAUGHT  $id  ($n classes)"; else echo "MISSED  $id  :: $(echo "$out" | tail -1 | cut -c1-160)"; fi
